@@ -1,6 +1,6 @@
 (* C04 -- Serialiser enforces the size limit exactly and stays inside its buffers. *)
 From CoapV Require Import Base Header Packet WireSpec Encode Decode PacketOps Suite01
-  proofs.PWire proofs.PEnc proofs.PDec proofs.P01.
+  proofs.PWire proofs.PEnc proofs.PDec proofs.P01 UnsafeModel gen.UnsafeSites proofs.PUnsafe.
 
 Theorem C04_limit_exact : forall p lim, pkt_wf p ->
   to_bytes_internal p lim =
@@ -22,6 +22,14 @@ Print Assumptions C04_oversize_value_refused.
 Theorem C04_no_panic : forall p lim s, nums_asc 0 (flatten (opts p)) -> to_bytes_internal p lim <> Panic s.
 Proof. exact to_bytes_no_panic. Qed.
 Print Assumptions C04_no_panic.
+
+(* memory clause, on the unsafe blocks as they stand in the source NOW (gen/UnsafeSites.v is regenerated from
+   /repo/src/packet.rs on every run): for ALL lengths of token, options, values and payload, every raw-pointer
+   copy stays inside the capacity guaranteed by the preceding reserve and inside its source, the copies
+   initialise exactly the bytes between the old length and the new one, and set_len does not exceed the capacity *)
+Theorem C04_unsafe_sites_in_bounds : forall env, sites_safe env UnsafeSites.blocks.
+Proof. apply sites_ok_sound. vm_compute. reflexivity. Qed.
+Print Assumptions C04_unsafe_sites_in_bounds.
 
 Example C04_example :
   let p := mkPacket (mkHeader 64 (Request Get) 7) [] [(11, [repeat 1 20])] (repeat 2 1253) in
